@@ -22,8 +22,24 @@ import time
 
 ROOT = os.path.dirname(os.path.dirname(os.path.abspath(__file__)))
 REPO = os.environ.get("VERIF_REPO", "/repo")
-COQ = os.path.join(ROOT, "coq")
 CACHE = os.path.join(ROOT, ".cache")
+COQ_SRC = os.path.join(ROOT, "coq")
+# When a check is pointed at a scratch copy of the repository (VERIF_REPO, used for testing the checks
+# against seeded changes) the Coq tree is mirrored into .cache so that the regenerated coq/Gen of the
+# scratch copy never disturbs builds against /repo that run at the same time.
+if os.path.realpath(REPO) != "/repo":
+    COQ = os.path.join(CACHE, "coq-" + hashlib.sha256(os.path.realpath(REPO).encode()).hexdigest()[:10])
+else:
+    COQ = COQ_SRC
+
+
+def sync_coq_mirror():
+    if COQ == COQ_SRC:
+        return
+    os.makedirs(COQ, exist_ok=True)
+    # sources and compiled files (so that unchanged proofs are not rebuilt), but never the other tree's Gen
+    subprocess.run(["rsync", "-a", "--delete", "--exclude", "Gen/", "--exclude", "extracted/", "--exclude", "Makefile*",
+                    "--exclude", "_CoqProject", "--exclude", ".Makefile.d", COQ_SRC + "/", COQ + "/"], check=True)
 OUT = os.path.join(ROOT, "out")          # replay files, logs (git-ignored)
 EVID = os.path.join(ROOT, "evidence")
 GUARD = "uazu_stakker_verif"
@@ -54,6 +70,7 @@ def log(msg):
 
 
 def ensure_dirs():
+    sync_coq_mirror()
     for d in (CACHE, OUT, EVID, os.path.join(CACHE, "bin"), os.path.join(COQ, "Gen"), os.path.join(COQ, "extracted")):
         os.makedirs(d, exist_ok=True)
 
@@ -276,6 +293,11 @@ def count_theorems(vfiles):
 # OCaml driver for an extracted model
 # --------------------------------------------------------------------------
 
+def driver_path(name):
+    """Path of the compiled driver (separate binaries for scratch-repo runs)."""
+    return os.path.join(CACHE, "bin", name + ("" if COQ == COQ_SRC else "-" + os.path.basename(COQ)))
+
+
 def ocaml_driver(name, model_ml, driver_ml, extra=()):
     """Compile coq/extracted/<model_ml> + exec/<driver_ml> into .cache/bin/<name>; cached on content hash."""
     ensure_dirs()
@@ -287,12 +309,12 @@ def ocaml_driver(name, model_ml, driver_ml, extra=()):
         if os.path.exists(mli):
             h.update(open(mli, "rb").read())
     digest = h.hexdigest()[:16]
-    binp = os.path.join(CACHE, "bin", name)
+    binp = driver_path(name)
     stamp = binp + ".stamp"
     if os.path.exists(binp) and os.path.exists(stamp) and open(stamp).read() == digest:
         return binp
-    with Lock("ocaml-" + name):
-        bdir = os.path.join(CACHE, "ocaml-" + name)
+    with Lock("ocaml-" + os.path.basename(binp)):
+        bdir = os.path.join(CACHE, "ocaml-" + os.path.basename(binp))
         shutil.rmtree(bdir, ignore_errors=True)
         os.makedirs(bdir)
         names = []
